@@ -287,6 +287,13 @@ def state_catalogue():
     gf("star", lambda: star(seq(incj(), lit("a"), lit("b"))))
     gf("act", lambda: seq(act(lit("a"), b_amut("j")), opt(lit("b")), incj()))
     gf("pred", lambda: seq(andcode(p_mut("j")), lit("a"), incj()))
+    # labelled failures and the store: a throw whose recovery expressions fail (one, two nested ones for the same label,
+    # the second one succeeding) restores the store of the throw position each time; the failure of the throw is
+    # absorbed by ? / * directly, so no enclosing sequence or choice repairs the store afterwards
+    rcv = lambda inner, outer: recover(recover(throw("l1"), ["l1"], inner), ["l1"], outer)
+    g("throw_2fail", lambda: seq(inc(), opt(rcv(lit("b"), lit("b"))), opt(lit("a"))))
+    g("throw_2fail_st", lambda: seq(inc(), star(rcv(seq(inc(), lit("b")), seq(inc(), inc(), lit("b")))), opt(lit("a")), inc()))
+    g("throw_1fail", lambda: seq(inc(), opt(rcv(seq(inc(), lit("b")), seq(inc(), opt(lit("b"))))), opt(lit("a"))))
     return out
 
 
@@ -508,6 +515,11 @@ def utf8_catalogue():
     g("lookahead", [rule("S", act(seq(and_(any_()), not_(lit("b")), label("x", any_()), label("y", opt(any_()))), b_rec("s")))])
     g("fffdlit", [rule("S", act(seq(label("x", opt(lit("a�"))), label("y", star(any_()))), b_rec("s")))], )
     g("twice", [rule("S", choice(act(seq(any_(), any_(), lit("z")), b_rec("s1")), act(seq(label("x", any_()), label("y", opt(any_()))), b_rec("s2"))))])
+    # literals of several characters (case-sensitive, case-insensitive, with a two-byte rune) with anything behind
+    # them: the byte that follows a matched literal is decoded when the literal's last rune is consumed
+    g("lit2", [rule("S", act(seq(label("x", lit("ab")), label("y", opt(any_()))), b_rec("s")))])
+    g("lit2i", [rule("S", act(seq(label("x", choice(lit("ab", i=True), lit("é"))), label("y", star(cls(chars="a", inv=True)))), b_rec("s")))])
+    g("lit2pred", [rule("S", act(seq(label("x", opt(lit("ab"))), not_(lit("ab")), label("y", opt(cls(ranges=[("a", "b")])))), b_rec("s")))])
     return out
 
 
@@ -619,6 +631,11 @@ def opt_catalogue():
     # alternate entrypoints
     g("entry", [rule("S", top(seq(ref("A"), ref("B")))), rule("A", act(choice(lit("a"), lit("b")), b_rec("A"))), rule("B", act(seq(lit("c"), opt(ref("A"))), b_rec("B")))], entries=["", "A", "B"])
     g("unused", [rule("S", top(ref("A"))), rule("A", lit("a")), rule("U", act(lit("u"), b_rec("U")))], entries=["", "U"])
+    # an alternate entry point that is a leaf rule referenced several times by one rule (inlined at each place, but it
+    # must survive as a rule), and a first rule that is a leaf referenced twice by an entry point
+    g("entry_twice", [rule("S", top(seq(ref("E"), star(seq(lit(","), ref("E")))))), rule("E", cls(ranges=[("a", "b")]))], entries=["", "E"])
+    g("entry_thrice", [rule("S", top(seq(ref("E"), lit("-"), ref("E"), opt(ref("E"))))), rule("T", act(seq(ref("E"), ref("E")), b_rec("T"))), rule("E", lit("ab"))], entries=["", "E", "T"])
+    g("entry_first", [rule("S", plus(cls(ranges=[("a", "b")]))), rule("E", act(seq(label("l", ref("S")), lit(","), label("r", ref("S"))), b_rec("E")))], entries=["", "E"])
     # same label name in caller and inlined callee
     g("lblclash", [rule("S", act(seq(label("v", lit("a")), label("q", ref("A"))), b_rec("s"))), rule("A", seq(label("v", lit("b")), opt(lit("c"))))], tags=["inlined-label-clash"])
     # the same with an unlabelled reference: inlining puts the callee's label into the caller's scope. On the tree as
